@@ -110,3 +110,21 @@ def _default(o):
     if isinstance(o, (set, frozenset)):
         return sorted(o, key=str)
     return str(o)
+
+
+def merge(outs):
+    """combine the outcomes of several engines serving one property into one evidence record"""
+    first = outs[0]
+    for o in outs[1:]:
+        for k in ("evaluations", "distinct_nontrivial", "states", "transitions", "traces_validated_against_impl"):
+            first.cov[k] += o.cov.get(k, 0)
+        first.cov["rule"] = first.cov["rule"] + " || " + o.cov["rule"]
+        first.cov["samples"] = list(first.cov["samples"]) + list(o.cov["samples"])
+        if "exhaustive" in first.cov or "exhaustive" in o.cov:
+            first.cov["exhaustive"] = bool(first.cov.get("exhaustive")) and bool(o.cov.get("exhaustive"))
+        first.violations += o.violations
+        first.known_seen.update(o.known_seen)
+        first.assumptions += o.assumptions
+        for k, v in o.notes.items():
+            first.notes[k if k not in first.notes else k + "_2"] = v
+    return first
